@@ -12,7 +12,8 @@ RULE = ("Engine F: generated factories of all topologies incl. finite inputs run
         "form of the liveness statement): (in) a node that is set up and has a free worker holds a live retrieval request "
         "on every in-edge its policy names (FIRST_AVAILABLE: all; otherwise exactly the chosen one) and no such edge has an "
         "available unreserved item; no retrieval request of a machine or sink is granted and still unused; (out) no space "
-        "request of a blocking node is granted and still unused; (sink) no in-edge of a sink holds an available unreserved "
+        "request of a blocking node is granted and still unused; (in, splitters and combiners) no retrieval request is still pending "
+        "while its edge holds an available unreserved item; (sink) no in-edge of a sink holds an available unreserved "
         "item; (tokens) a machine/splitter/sink never holds more than one live retrieval request per in-edge, and a node "
         "holds no live space request unless it holds a finished item; at quiescence no granted-unused token exists. "
         "Non-trivial: a node with >= 2 in- or out-edges under FIRST_AVAILABLE had two of its requests granted in the same "
@@ -96,6 +97,16 @@ class StrandOracle(FOracle):
                     self.v(nid, (kind, "in", policy_class(ns.get("in_sel", "FIRST_AVAILABLE")), "stranded_in"),
                            "%s: retrieval request on %s granted at %s is unused at the end of instant %s (the item was not taken)" % (
                                nid, unused[0].edge, unused[0].t_grant, now))
+                    continue
+            if kind in ("Splitter", "Combiner"):
+                # a node that is asking an in-edge (pending retrieval request = it can take an item and its policy allows that
+                # edge) while the edge holds an available item that nobody has reserved: the item is not taken at that instant
+                stuck = [t for t in gets if t.state == "pending" and f.edge_spec[t.edge]["kind"] in ("Buffer", "Fleet")
+                         and edge_avail(f, t.edge) > 0]
+                if stuck:
+                    self.v(nid, (kind, "in", policy_class(ns.get("in_sel", "FIRST_AVAILABLE")), "stranded_in", "request_pending"),
+                           "%s: retrieval request on %s (issued at t=%s) is still pending at the end of instant %s although that edge holds "
+                           "%d available unreserved item(s)" % (nid, stuck[0].edge, stuck[0].t_issue, now, edge_avail(f, stuck[0].edge)))
                     continue
             if kind in ("Machine", "Splitter", "Sink"):
                 per_edge = {}
